@@ -174,7 +174,13 @@ func judgeLO(w gen.World, call LOCall, truth semkit.LOTruth, objs []string, err 
 		want = call.Limit
 	}
 	if len(objs) != want {
-		return "", fmt.Sprintf("returned %d objects %v, expected %d of truth=%v (limit %d)", len(objs), objs, want, truth.True, call.Limit)
+		sig := ""
+		if len(objs) < want && semkit.ExclusionOverTupleCycle(w, m.Request{Contextual: call.Req.Contextual}) {
+			// an object is missing and the data has a tuple cycle under an exclusion: the per-candidate Check
+			// denies on a cycle in the subtract branch (recorded under C01)
+			sig = semkit.SigExclusionCycleDeny
+		}
+		return sig, fmt.Sprintf("returned %d objects %v, expected %d of truth=%v (limit %d)", len(objs), objs, want, truth.True, call.Limit)
 	}
 	return "", ""
 }
@@ -337,6 +343,13 @@ func genC05Limit(t *rapid.T) C05Case {
 		{Name: "r1", Rewrite: this(), Restr: user},
 		{Name: "r2", Rewrite: &m.Rewrite{Kind: op, Children: []*m.Rewrite{{Kind: m.Computed, Rel: "r0"}, {Kind: m.Computed, Rel: "r1"}}}},
 	}}}}
+	// a quarter of the cases: the second operand only has conditioned tuples whose parameter is missing
+	// from the request, so every object that has one is neither in nor out (the call must fail or leave it out)
+	unevaluable := rapid.IntRange(0, 3).Draw(t, "unevaluable") == 0
+	if unevaluable {
+		mo.Conds = []m.Condition{{Name: "c0", Params: []m.Param{{Name: "x", Type: "int"}}, Expr: m.Cmp("<", m.Var("x"), m.Lit("int", 10))}}
+		mo.Types[1].Relations[1].Restr = []m.Restriction{{Type: "user"}, {Type: "user", Cond: "c0"}}
+	}
 	n := rapid.IntRange(10, 60).Draw(t, "nObjects")
 	p1 := 85
 	if op == m.Difference {
@@ -348,7 +361,11 @@ func genC05Limit(t *rapid.T) C05Case {
 			ts = append(ts, m.Tuple{Object: fmt.Sprintf("doc:%d", i), Relation: "r0", User: "user:0"})
 		}
 		if chance100(t, "has1", p1) {
-			ts = append(ts, m.Tuple{Object: fmt.Sprintf("doc:%d", i), Relation: "r1", User: "user:0"})
+			tu := m.Tuple{Object: fmt.Sprintf("doc:%d", i), Relation: "r1", User: "user:0"}
+			if unevaluable {
+				tu.Cond = "c0"
+			}
+			ts = append(ts, tu)
 		}
 	}
 	c := C05Case{World: gen.World{Model: mo, Tuples: ts}}
